@@ -22,6 +22,26 @@ MANIFEST = dict(
 ANY = 0xFFFFFFFF
 
 
+def zip_layer_conforms(z, inner):
+    """doc/credential_v3_format.txt: a compressed INNER is an 8-byte header - magic 0xCACACACA, then the length of the
+    uncompressed data as a 32-bit BIG-ENDIAN word - followed by the zlib/bzlib stream, which inflates to exactly that length"""
+    import bz2, zlib
+    if z == 0:
+        return None
+    if len(inner) < 8:
+        return "shorter than the 8-byte header"
+    magic, length = struct.unpack(">II", inner[:8])
+    if magic != pyref.ZIP_MAGIC:
+        return "magic is %08x" % magic
+    try:
+        raw = zlib.decompress(inner[8:]) if z == 3 else bz2.decompress(inner[8:])
+    except Exception as e:
+        return "stream does not inflate (%s)" % type(e).__name__
+    if length != len(raw):
+        return "header announces %d bytes (0x%08x) but the stream inflates to %d bytes (the length word is big-endian)" % (length, length, len(raw))
+    return None
+
+
 def run(ctx):
     ctx.level = "proof"
     proved = vlib.prove(ctx, ["Properties_C10.v"], facts=["cred", "base64"])
@@ -94,6 +114,9 @@ def run(ctx):
     if not ctx.thorough:
         combos = [combos[i] for i in range(0, len(combos), 3)]
     first = True
+    for extra in ((0, 5, 2), (0, 5, 3), (0, 2, 3)):
+        if extra not in combos:
+            combos.append(extra)
     for (c, m, z) in combos:
         for n in ((0, 5, 100, 3000) if ctx.thorough else (0, 100)):
             data = (b"conformance payload " * (n // 20 + 1))[:n]
@@ -129,6 +152,10 @@ def run(ctx):
                     dist["daemon->pyref"] += 1
                     if pyref.mac_supported(m) and pyref.tag(key, m, outer + inner) != tag:
                         fails.append({"why": "HMAC over outer||inner under SHA1(key||'2') (Python hashlib) does not match munged's tag (mac %d)" % m})
+                    why_zip = zip_layer_conforms(outer[3], inner)
+                    if why_zip:
+                        fails.append({"why": "compressed interior of munged's credential (zip %d) does not follow the document: %s" % (outer[3], why_zip),
+                                      "cred_hex": r["data"].hex()[:2000]})
             if first and p:
                 ctx.sample({"direction": "daemon->reference", "cipher": c, "mac": m, "zip": z, "cred_prefix": r["data"][:40].decode(errors="replace")})
             # --- reference -> daemon: build with own salt/IV/time/identity
@@ -230,6 +257,16 @@ def run(ctx):
     rc, rep = cr.stop()
     if rep.strip():
         ctx.violation("sanitizer report from the daemon during C10 cases", {"report": rep[:3000]}, found_input=False)
+    # conformance does not depend on what other clients ask for at the same time: all MAC types in parallel
+    import conc
+    mp, mrep, mn = conc.mac_race(ctx, exe, seconds=15.0 if ctx.thorough else 4.0)
+    dist["concurrent-mac-types"] = mn
+    ctx.count(("mac-race", mn))
+    ctx.log("MAC-type race: %d rounds, %d problems" % (mn, len(mp)))
+    for pb in mp:
+        fails.append(pb)
+    if mrep.strip():
+        ctx.violation("sanitizer report from the daemon during the concurrent MAC-type phase", {"report": mrep[:3000]}, found_input=False)
     # frozen upstream pair (tests/0099-credential-decode.*)
     kf = os.path.join(vlib.REPO, "tests/0099-credential-decode.key")
     cf = os.path.join(vlib.REPO, "tests/0099-credential-decode.cred")
